@@ -19,7 +19,7 @@ theorem adjustWith_decision (cfg : Cfg) {a : AS} (inv : PInv cfg a) (hap : cfg.a
   intro a' load grow shrink
   simp only [a', AS.adjustWith]
   set a1 : AS := { a with total := a.total + amount,
-                          ema := some (Ema.update a.ema i.w ((a.total + amount : Int) : Rat)),
+                          ema := some i.avg, clock := MonoClock.sample a.clock i.now,
                           adjIn := rest, bad := a.bad || missing } with ha1
   have s1 : Stable cfg a a1 := Stable.of_same inv rfl rfl rfl rfl
   have hE := decision_expand_iff cfg a1 i.avg
@@ -144,5 +144,42 @@ theorem osc0_never_settles :
   rcases key k with h | h
   · rw [h, osc0_step1]; decide
   · rw [h, osc0_step2]; decide
+
+/-! ### the clock: only `_AdjustAperture` samples it -/
+
+theorem choose_clock (a : AS) : (a.choose).1.clock = a.clock := by
+  unfold AS.choose
+  split
+  · rfl
+  · split
+    · rfl
+    · split <;> rfl
+
+theorem tryExpand_clock (cfg : Cfg) (a : AS) (lp : Bool) : (a.tryExpand cfg lp).1.clock = a.clock := by
+  have h := choose_clock a
+  unfold AS.tryExpand
+  split
+  · rename_i a0 heq; rw [heq] at h; exact h
+  · rename_i a0 c heq; rw [heq] at h
+    simp only
+    split <;> exact h
+
+theorem contract_clock (cfg : Cfg) (a : AS) (force : Bool) : (a.contract cfg force).clock = a.clock := by
+  unfold AS.contract
+  split
+  · rfl
+  · split
+    · split <;> rfl
+    · rfl
+
+/-- `_AdjustAperture` leaves the clock at `MonoClock.Sample()` of its previous value and the reading -/
+theorem adjustWith_clock (cfg : Cfg) (a : AS) (amount : Int) (i : AdjIn) (rest : List AdjIn) (missing : Bool) :
+    (a.adjustWith cfg amount i rest missing).clock = MonoClock.sample a.clock i.now := by
+  unfold AS.adjustWith
+  simp only
+  split
+  · exact tryExpand_clock cfg _ false
+  · exact contract_clock cfg _ false
+  · rfl
 
 end Scales.Aperture
